@@ -374,10 +374,33 @@ func bestRef(c []int, rows [][]int, maxAvg, maxInd float64) bestOutcome {
 	return bestOutcome{found: true, index: bestI, score: best}
 }
 
+// firstRef: the RSS finder lookup returns the FIRST template scoring below the limit (not the lowest).
+func firstRef(c []int, rows [][]int, maxAvg, maxInd float64) bestOutcome {
+	for i, p := range rows {
+		dev, den, inf, ok := intScore(c, p[:len(c)], maxInd)
+		if !ok {
+			return bestOutcome{skip: "individual_boundary"}
+		}
+		if inf {
+			continue
+		}
+		sc := float64(dev) / float64(den)
+		if math.Abs(sc-maxAvg) < 1e-9 {
+			return bestOutcome{skip: "average_boundary"}
+		}
+		if sc < maxAvg {
+			return bestOutcome{found: true, index: i, score: sc}
+		}
+	}
+	return bestOutcome{}
+}
+
 func bestTable(dec string) (rows [][]int, lim [2]float64, n int) {
 	pt := oned.VerifPatternTables()
 	ls := oned.VerifBestMatchLimits()
 	switch dec {
+	case "rss_finder":
+		return rss.VerifFinderPatterns(), rss.VerifFinderLimits(), 4
 	case "itf":
 		return pt["itf"], ls["itf"], 5
 	case "code128":
@@ -404,12 +427,17 @@ func checkBest(raw json.RawMessage) error {
 		}
 	}
 	want := bestRef(c.Counters, rows, lim[0], lim[1])
+	if c.Decoder == "rss_finder" {
+		want = firstRef(c.Counters, rows, lim[0], lim[1])
+	}
 	if want.skip != "" {
 		return nil
 	}
 	var got int
 	var err error
-	if c.Decoder == "itf" {
+	if c.Decoder == "rss_finder" {
+		got, err = rss.RSSReader_parseFinderValue(append([]int(nil), c.Counters...), rows)
+	} else if c.Decoder == "itf" {
 		got, err = oned.VerifITFDecodeDigit(append([]int(nil), c.Counters...))
 		want.index %= 10
 	} else {
@@ -459,6 +487,81 @@ func checkBest(raw json.RawMessage) error {
 	return nil
 }
 
+// StartCase: the Code 128 start-pattern search on a pixel row. Model: slide over windows of six runs
+// that begin with a bar (a window counts once a seventh run has begun); the first window whose
+// lowest-scoring start code (A, B, C) scores below the maximum average variance and that is
+// preceded by white pixels for half its width is the answer {start, end, code}; otherwise not found.
+type StartCase struct {
+	Row string `json:"row"`
+}
+
+func checkStart(raw json.RawMessage) error {
+	var c StartCase
+	if err := json.Unmarshal(raw, &c); err != nil {
+		return fmt.Errorf("hx: %v", err)
+	}
+	pt := oned.VerifPatternTables()["code128"]
+	lim := oned.VerifBestMatchLimits()["code128"]
+	starts, lens := runs(c.Row)
+	// drop leading white run
+	first := 0
+	if len(c.Row) > 0 && c.Row[0] == '0' {
+		first = 1
+	}
+	type ans struct {
+		found            bool
+		start, end, code int
+	}
+	want := ans{}
+	for k := first; k+6 < len(lens); k += 2 {
+		win := lens[k : k+6]
+		o := bestRef(win, pt[103:106], lim[0], lim[1])
+		if o.skip != "" {
+			return nil // too close to a decision boundary to call
+		}
+		if !o.found {
+			continue
+		}
+		ps := starts[k]
+		end := starts[k+6]
+		q := ps - (end-ps)/2
+		if q < 0 {
+			q = 0
+		}
+		white := true
+		for x := q; x < ps; x++ {
+			if c.Row[x] == '1' {
+				white = false
+			}
+		}
+		if white {
+			want = ans{true, ps, end, 103 + o.index}
+			break
+		}
+	}
+	got, err := oned.VerifCode128FindStartPattern(rowOf(c.Row))
+	desc := fmt.Sprintf("row %s", c.Row)
+	if len(desc) > 400 {
+		desc = desc[:400] + "..."
+	}
+	if !want.found {
+		if err == nil {
+			return fmt.Errorf("start pattern %v reported, the model finds none [%s]", got, desc)
+		}
+		if !isNotFound(err) {
+			return fmt.Errorf("error is not NotFound: %v [%s]", err, desc)
+		}
+		return nil
+	}
+	if err != nil {
+		return fmt.Errorf("no start pattern found, the model finds start code %d at [%d,%d) [%s]", want.code, want.start, want.end, desc)
+	}
+	if len(got) != 3 || got[0] != want.start || got[1] != want.end || got[2] != want.code {
+		return fmt.Errorf("start pattern %v, the model finds {%d %d %d} [%s]", got, want.start, want.end, want.code, desc)
+	}
+	return nil
+}
+
 type table struct {
 	name string
 	rows [][]int
@@ -486,6 +589,7 @@ func TestCheck(t *testing.T) {
 		c.Register("record", checkRecord)
 		c.Register("variance", checkVariance)
 		c.Register("best", checkBest)
+		c.Register("c128start", checkStart)
 	}, func(c *hx.Ctx) {
 		// (1) RecordPattern forward / reverse, rapid rows
 		rprop := func(rev bool, sub string) func(t *rapid.T) {
@@ -640,6 +744,9 @@ func TestCheck(t *testing.T) {
 		noteBest := func(sub string, cs BCase) {
 			rows, lim, _ := bestTable(cs.Decoder)
 			o := bestRef(cs.Counters, rows, lim[0], lim[1])
+			if cs.Decoder == "rss_finder" {
+				o = firstRef(cs.Counters, rows, lim[0], lim[1])
+			}
 			cl, nt := cs.Decoder+";no_template_close_enough", true
 			switch {
 			case o.skip != "":
@@ -658,7 +765,7 @@ func TestCheck(t *testing.T) {
 		for _, d := range []struct {
 			dec string
 			max int
-		}{{"itf", c.N(6, 9)}, {"upcean_l", c.N(8, 12)}, {"upcean_l_and_g", c.N(8, 12)}, {"code128", c.N(3, 5)}} {
+		}{{"itf", c.N(6, 9)}, {"upcean_l", c.N(8, 12)}, {"upcean_l_and_g", c.N(8, 12)}, {"code128", c.N(3, 5)}, {"rss_finder", c.N(12, 24)}} {
 			_, _, n := bestTable(d.dec)
 			cnt := make([]int, n)
 			for i := range cnt {
@@ -690,8 +797,67 @@ func TestCheck(t *testing.T) {
 			}
 		}
 		c.SetExhaustive("best_match_small_exhaustive", true)
+		// (5) Code 128 start search: rows with junk, start-like windows without a quiet zone, distorted starts
+		c.Rapid("code128_start_search", c.N(3000, 50000), func(t *rapid.T) {
+			pt := oned.VerifPatternTables()["code128"]
+			var sb strings.Builder
+			col := byte('0')
+			put := func(n int) {
+				for i := 0; i < n; i++ {
+					sb.WriteByte(col)
+				}
+				col ^= 1
+			}
+			put(rapid.IntRange(0, 12).Draw(t, "lead"))
+			if sb.Len() == 0 {
+				col = '1'
+			}
+			nseg := rapid.IntRange(1, 4).Draw(t, "segments")
+			real, decoy := 0, 0
+			for sgm := 0; sgm < nseg; sgm++ {
+				switch rapid.IntRange(0, 3).Draw(t, "segkind") {
+				case 0: // junk runs
+					for i, n := 0, rapid.IntRange(1, 6).Draw(t, "njunk"); i < n; i++ {
+						put(rapid.IntRange(1, 9).Draw(t, "junk"))
+					}
+				default: // a (possibly distorted) start pattern, with or without a quiet zone before it
+					if col == '1' {
+						put(rapid.IntRange(1, 3).Draw(t, "bar")) // stray bar
+					}
+					k := rapid.IntRange(1, 5).Draw(t, "scale")
+					quiet := rapid.SampledFrom([]int{0, 1, 2, 6, 12}).Draw(t, "quiet") * k
+					if quiet == 0 {
+						quiet = 1
+						decoy++
+					} else {
+						real++
+					}
+					put(quiet) // white
+					p := pt[103+rapid.IntRange(0, 2).Draw(t, "startcode")]
+					for i := 0; i < 6; i++ {
+						n := k * p[i]
+						if rapid.IntRange(0, 3).Draw(t, "jit") == 0 {
+							n += rapid.IntRange(-k/2-1, k/2+1).Draw(t, "j")
+						}
+						if n < 1 {
+							n = 1
+						}
+						put(n)
+					}
+				}
+			}
+			for i, n := 0, rapid.IntRange(1, 5).Draw(t, "tail"); i < n; i++ {
+				put(rapid.IntRange(1, 8).Draw(t, "tl"))
+			}
+			cs := StartCase{Row: sb.String()}
+			cl := fmt.Sprintf("starts_with_quiet_zone=%d;start_like_without=%d", min(real, 2), min(decoy, 2))
+			c.Note("code128_start_search", cl, real+decoy > 0, hx.HashS("c128s", cs.Row), func() any { return cs })
+			if err := c.Eval("c128start", cs); err != nil {
+				t.Fatalf("%v", err)
+			}
+		})
 		c.Rapid("best_match_random", c.N(6000, 100000), func(t *rapid.T) {
-			dec := rapid.SampledFrom([]string{"itf", "itf", "code128", "upcean_l", "upcean_l_and_g"}).Draw(t, "decoder")
+			dec := rapid.SampledFrom([]string{"itf", "itf", "code128", "upcean_l", "upcean_l_and_g", "rss_finder", "rss_finder"}).Draw(t, "decoder")
 			rows, _, n := bestTable(dec)
 			pat := rows[rapid.IntRange(0, len(rows)-1).Draw(t, "template")]
 			k := rapid.IntRange(1, 8).Draw(t, "scale")
